@@ -65,10 +65,9 @@ impl Generator {
         // at this point, stack has no MARKs, just regular items
         // keep combining until we have exactly 1 item
         // use TUPLE2/TUPLE3 which don't require MARKs
-        let mut safety_counter = 0;
-        while self.state.stack.len() > 1 && safety_counter < 10000 {
-            safety_counter += 1;
-
+        // every iteration emits one opcode that shrinks the stack, so the loop ends;
+        // it must not be capped, or very long programs keep surplus items for STOP
+        while self.state.stack.len() > 1 {
             let stack_len = self.state.stack.len();
             if self.state.version < Version::V2 {
                 // TUPLE2/TUPLE3 only exist from protocol 2 on; older protocols
